@@ -4,6 +4,7 @@ import (
 	"fmt"
 	"go/token"
 	"go/types"
+	"sort"
 	"strings"
 
 	"golang.org/x/tools/go/ssa"
@@ -715,4 +716,36 @@ func c02UpdateKeepsStatus(c *Ctx) {
 		}
 		c.R.Cond(good, rule, name+": keeps the stored row's insert/delete time", pos, "DeleteUpdateOffset of the delta = stored status time - statement time", why)
 	}
+}
+
+// ---- C02.utc: write times are instants, read the same way on every machine ----------------------------
+
+func init() {
+	register(&Rule{Name: "C02.utc", Min: 1, Run: c02UTC,
+		Doc: "library code never reads the machine's local time zone: SQLite date/time text is UTC, and write times are compared across machines"})
+	byProp["C02"] = append(byProp["C02"], "C02.utc", "C15.conn")
+	byProp["C15"] = append(byProp["C15"], "C02.utc")
+	explain["C02"] += " utc: an explicit write_time is SQLite date/time text, i.e. UTC; parsing it in time.Local shifts every application-supplied time by the zone offset relative to clock-stamped statements and to writers in other zones (west of Greenwich an explicit time lands in the future and beats newer statements). No function of the library packages loads time.Local. conn (shared with C15): both attributes are installed into one stacked context."
+}
+
+func c02UTC(c *Ctx) {
+	const rule = "C02.utc"
+	n := 0
+	var bad []string
+	for _, fn := range c.P.RepoFuncs(an.LibraryPkg) {
+		n++
+		for _, b := range fn.Blocks {
+			for _, in := range b.Instrs {
+				for _, op := range in.Operands(nil) {
+					if g, ok := (*op).(*ssa.Global); ok && g.Pkg != nil && g.Pkg.Pkg.Path() == "time" && g.Name() == "Local" {
+						bad = append(bad, core.FuncName(fn)+" at "+c.P.Pos(in.Pos()))
+					}
+				}
+			}
+		}
+	}
+	sort.Strings(bad)
+	c.R.Stats["C02.utc.functions"] = n
+	c.R.Cond(len(bad) == 0, rule, "library code: no use of time.Local", "-", fmt.Sprintf("%d functions, none reads the local zone", n),
+		"time.Local is used in "+strings.Join(bad, "; ")+": a write time that depends on the machine's zone orders statements differently on different machines")
 }
